@@ -116,7 +116,8 @@ impl Iterator for FaultyPairs {
 pub struct FaultyIter {
     pub inner: std::vec::IntoIter<E>,
     /// size_hint shape: 0 exact, 1 unknown, 2 loose upper bound, 3 exact lower bound without upper,
-    /// 4 = unknown hint AND not fused: polled again after its first `None` it produces a poison element
+    /// 4 = unknown hint AND not fused: polled again after its first `None` it produces a poison element,
+    /// 5 = lower bound 3 too high, 6 = "exactly m + 2", 7 = upper bound one too low (all three incorrect)
     pub hint: usize,
     pub slack: usize,
 }
@@ -147,6 +148,11 @@ impl Iterator for FaultyIter {
             0 => (m, Some(m)),
             2 => (0, Some(m + self.slack)),
             3 => (m, None),
+            // incorrect hints (std: "a buggy iterator may yield less than the lower bound or more than the upper
+            // bound"; safe code must stay safe and, here, correct — only the items really yielded count)
+            5 => (m + 3, None),
+            6 => (m + 2, Some(m + 2)),
+            7 => (0, Some(m.saturating_sub(1))),
             _ => (0, None),
         }
     }
